@@ -11,7 +11,7 @@ MISSED=0; CAUGHT=0; NA=0
 for d in seeded/*/; do
   id=$(basename "$d"); prop=${id%%-*}
   [ -f "$d/patch.diff" ] || continue
-  echo "$id" | grep -Eq "$ONLY" || continue
+  echo "$id" | grep -Eq -e "$ONLY" || continue
   if grep -q '"rejected": true' "$d/meta.json" 2>/dev/null; then echo "$id rejected-as-out-of-scope (see meta.json)"; continue; fi
   W=$(mktemp -d /tmp/sa-XXXXXX); rmdir "$W"
   git -C "$REPO" worktree add -q "$W" HEAD || { echo "$id worktree-failed"; continue; }
